@@ -417,8 +417,10 @@ fn build_schedule(e: &mut Ent, g: &Guest, base_len: usize) -> Vec<(u32, u8)> {
         // the burst: nb requests of one vector at one boundary
         let k = e.below(horizon);
         let v = e.pick(&g.vectors);
-        for _ in 0..nb {
-            out.push((k, v));
+        let mixed = e.chance(1, 3);
+        for i in 0..nb {
+            // one vector (a run of identical requests) or all of the guest's vectors in rotation
+            out.push((k, if mixed { g.vectors[i as usize % g.vectors.len()] } else { v }));
         }
     }
     let mut burst_at = e.below(horizon);
